@@ -3,7 +3,7 @@ from pyvc.verify import Post, Case, Equiv
 from contracts import common
 
 PROPERTY = 'C12'
-REF_MODULES = ['ref_mut', 'h_path']
+REF_MODULES = ['ref_mut', 'h_path', 'ref_extra', 'ref_core']
 TS = ['len(S.__ops__) == 1', 'S.__ops__[0] is S', 'len(T.__ops__) == 1', 'T.__ops__[0] is T']
 
 
@@ -31,6 +31,8 @@ def contracts():
                     loops={1: dict(vars=[('val', 'ref')], ref_vars=[('val', 'ref')]),
                            2: dict(vars=[('func', 'ref')], ref_vars=[('func', 'ref')])}))
     cs.append(Equiv('mutation._del_sequence_item', 'ref_mut.del_seq_ref', args={'target': 'ref', 'idx': 'ref'}))
+    from contracts import extra
+    cs += common.shared(extra, ['mutation.Delete.__init__', 'mutation.delete', 'mutation._delete_autodiscover'])
     return cs
 
 
